@@ -129,6 +129,28 @@ fn gen_clean_tfm(r: &mut Rng) -> Vec<u8> {
     b
 }
 
+
+/// what a .tfm says about its characters, independent of table layout: the VALUES of the four dimensions, the next-larger
+/// link and the extensible recipe of every character, and the parameters (lig/kern behaviour is compared through the
+/// property lists)
+fn fingerprint(bytes: &[u8]) -> Option<String> {
+    let (f, _) = crate::File::deserialize(bytes);
+    let mut f = f.ok()?;
+    let _ = f.validate_and_fix();
+    let mut out = format!("design {:?} params {:?}\n", f.header.design_size, f.params);
+    for (c, d) in &f.char_dimens {
+        let v = |t: &Vec<crate::FixWord>, i: usize| t.get(i).map(|x| x.0);
+        out.push_str(&format!("{:?}: w {:?} h {:?} d {:?} i {:?}", c, v(&f.widths, d.width_index.get() as usize), v(&f.heights, d.height_index as usize), v(&f.depths, d.depth_index as usize), v(&f.italic_corrections, d.italic_index as usize)));
+        match f.char_tags.get(c) {
+            Some(crate::CharTag::List(n)) => out.push_str(&format!(" next {:?}", n)),
+            Some(crate::CharTag::Extension(e)) => out.push_str(&format!(" ext {:?}", f.extensible_chars.get(*e as usize).map(|r| (r.top, r.middle, r.bottom, r.rep)))),
+            _ => {}
+        }
+        out.push('\n');
+    }
+    Some(out)
+}
+
 fn hex(b: &[u8]) -> String { b.iter().map(|x| format!("{x:02x}")).collect() }
 
 #[test]
@@ -205,6 +227,7 @@ fn whole_files() {
                     else if n2 > 0 { Some(format!("the canonical .tfm raises {n2} warning(s)")) }
                     else if w2 > 0 { Some("second PL read raises warnings".to_string()) }
                     else if t2.as_ref() != Some(&t1) { Some("a further PL round trip changes the canonical .tfm".to_string()) }
+                    else if fingerprint(&b) != fingerprint(&t1) { Some(format!("the canonical .tfm gives some character different dimensions, links, recipes or parameters: {:?} became {:?}", fingerprint(&b), fingerprint(&t1)).chars().take(700).collect()) }
                     else if pl2.as_ref().map(|p| font_description(p)) != Some(font_description(&pl)) { Some("the canonical .tfm describes a different font (its property list differs from the original's beyond the header defaults PLtoTF always writes)".to_string()) }
                     else { None };
                 if let Some(pb) = problem {
